@@ -9,7 +9,7 @@
  * Transfer scripts (one step each):
  *     xfer <len> <mode> <wsched> <rsched> = {rc=..,rcalls=..,retries=..,wc=..,wcalls=..} {data=T,len=<len>,open=0,send=T}
  *   sched = [[ok,n],[sh,n],[ei,0],[ea,0],[end,0]...]: outcome of the first calls on the client (write) / accepted (read)
- *   descriptor;  mode eof: the client is closed before the peer reads;  nbio: the peer reads non-blocking.
+ *   descriptor; with a fifth argument "cyc" the schedules are patterns repeated over the whole transfer ([sh,n] = at most n);  mode eof: the client is closed before the peer reads;  nbio: the peer reads non-blocking.
  * Lifecycle scripts: new/open/accept/send/recv/close/dup/del steps; state token {g=<ghost>,o=<observable>} where the ghost
  *   part (the specification's kernel-side bookkeeping, not observable) is copied from the expectation and the
  *   observable part {ex=[..],fd=[..],nopen=n,orph=n,sk=[..]} is measured (object fields, fstat inode identity,
@@ -39,7 +39,8 @@ extern int __real_select(int, fd_set *, fd_set *, fd_set *, struct timeval *);
 #define MAXSCHED 16
 typedef struct { char kind; long n; } sched_ent;          /* kind: o(k) s(hort) i(EINTR) a(EAGAIN) e(nd) */
 static sched_ent wsched[MAXSCHED], rsched[MAXSCHED];
-static int wlen, rlen_, wpos, rpos;
+static int wlen, rlen_; static long wpos, rpos;
+static int cyclic;                                          /* the schedules are patterns repeated over the whole transfer */
 static int sched_wfd = -1, sched_rfd = -1;
 static long wcalls, rcalls, nsleep, rguard;
 static int spin_detected;
@@ -50,8 +51,8 @@ ssize_t __wrap_write(int fd, const void *buf, size_t n) {
     if (fd >= 0 && fd == inj_write_fd) { inj_write_fd = -1; errno = inj_write_errno; return -1; }
     if (fd >= 0 && fd == sched_wfd) {
         wcalls++;
-        if (wpos < wlen) {
-            sched_ent e = wsched[wpos++];
+        if (wlen && (cyclic || wpos < wlen)) {
+            sched_ent e = wsched[wpos++ % wlen];
             if (e.kind == 'i') { errno = EINTR; return -1; }
             if (e.kind == 'a') { errno = EAGAIN; return -1; }
             if (e.kind == 's' && (size_t) e.n < n) return __real_write(fd, buf, (size_t) e.n);
@@ -63,8 +64,8 @@ ssize_t __wrap_read(int fd, void *buf, size_t n) {
     if (fd >= 0 && fd == sched_rfd) {
         rcalls++;
         if (rguard && rcalls > rguard) { spin_detected = 1; errno = EIO; return -1; }   /* break a loop that does not end */
-        if (rpos < rlen_) {
-            sched_ent e = rsched[rpos++];
+        if (rlen_ && (cyclic || rpos < rlen_)) {
+            sched_ent e = rsched[rpos++ % rlen_];
             if (e.kind == 'i') { errno = EINTR; return -1; }
             if (e.kind == 's' && (size_t) e.n < n) return __real_read(fd, buf, (size_t) e.n);
         }
@@ -86,7 +87,7 @@ struct protoent *__wrap_getprotobyname(const char *name) { (void) name; return N
 struct servent *__wrap_getservbyname(const char *name, const char *proto) { (void) name; (void) proto; return NULL; }
 
 /* ---- descriptor census ---------------------------------------------------------------------------------------- */
-#define MAXFD 1024
+#define MAXFD 8192
 static unsigned char base_fd[MAXFD], cur_fd[MAXFD];
 static void census(unsigned char *set) {
     DIR *d = opendir("/proc/self/fd"); struct dirent *de; int self;
@@ -118,7 +119,7 @@ static spif_socket_t mk_socket(int listener) {
 }
 static void clear_inj(void) {
     inj_socket = inj_bind = inj_connect = inj_listen = inj_accept = 0; inj_close_fd = inj_write_fd = -1;
-    sched_wfd = sched_rfd = -1; wlen = rlen_ = wpos = rpos = 0; wcalls = rcalls = nsleep = 0; rguard = 0; spin_detected = 0;
+    sched_wfd = sched_rfd = -1; wlen = rlen_ = 0; wpos = rpos = 0; cyclic = 0; wcalls = rcalls = nsleep = 0; rguard = 0; spin_detected = 0;
 }
 
 static void vh_begin(void) {
@@ -173,6 +174,7 @@ static const char *do_xfer(const vh_step_t *st, vh_sb *ret, vh_sb *state) {
 
     wlen = parse_sched(st->args[2], wsched); rlen_ = parse_sched(st->args[3], rsched);
     wpos = rpos = 0; wcalls = rcalls = nsleep = 0; spin_detected = 0;
+    cyclic = st->nargs > 4 && !strcmp(st->args[4], "cyc");
     sched_wfd = S[1]->fd;
     sr = spif_socket_send(S[1], data);
     sched_wfd = -1;
@@ -181,7 +183,7 @@ static const char *do_xfer(const vh_step_t *st, vh_sb *ret, vh_sb *state) {
     } else {
         spif_socket_set_nbio(S[2]);
     }
-    rguard = rlen_ + L / 4096 + 64;
+    rguard = cyclic ? (L + 2) * (rlen_ + 1) + 64 : rlen_ + L / 4096 + 64;
     sched_rfd = S[2]->fd;
     got = spif_socket_recv(S[2]);
     sched_rfd = -1; rguard = 0;
@@ -330,6 +332,25 @@ static const char *vh_step(const vh_step_t *st, vh_sb *ret, vh_sb *state) {
     return observe(st, state);
 }
 
+/* Resource-threshold prelude (env VH_HIFD=<k>): occupy descriptors so that only k slots below FD_SETSIZE (1024) are free and
+ * everything else the library opens lands at 1024 or above.  The fillers belong to the census taken before each script. */
+#include <sys/resource.h>
+static int hifd_prelude(int nfree) {
+    struct rlimit rl; int fd, n = 0, first = -1, i;
+    if (getrlimit(RLIMIT_NOFILE, &rl)) return -1;
+    if (rl.rlim_cur < 2048) { rl.rlim_cur = rl.rlim_max < 4096 ? rl.rlim_max : 4096; if (setrlimit(RLIMIT_NOFILE, &rl)) return -1; }
+    if (rl.rlim_cur < 1200) return -1;
+    for (;;) {
+        fd = open("/dev/null", O_RDONLY);
+        if (fd < 0) return -1;
+        if (first < 0) first = fd;
+        n++;
+        if (fd >= 1024 + 8) break;
+    }
+    for (i = 0; i < nfree; i++) __real_close(first + i);
+    return n;
+}
+
 int main(int argc, char **argv) {
     char cwd[128];
     if (argc < 2) { fprintf(stderr, "usage: %s <scripts> [first]\n", argv[0]); return 2; }
@@ -338,6 +359,7 @@ int main(int argc, char **argv) {
     if (strlen(sockpath) > 100) { fprintf(stderr, "socket path too long: %s\n", sockpath); return 2; }
     snprintf(sockurl, sizeof(sockurl), "unix:%s", sockpath);
     signal(SIGPIPE, SIG_IGN);
+    if (getenv("VH_HIFD") && hifd_prelude(atoi(getenv("VH_HIFD"))) < 0) { fprintf(stderr, "HIFD-UNAVAILABLE\n"); return 7; }
     libast_set_program_name("sock_replay");
     DEBUG_LEVEL = 0;
     return vh_main(argc, argv, 1);
